@@ -2,11 +2,14 @@ SPECIFICATION Spec
 CONSTANT MaxReg = 2
 CONSTANT MaxUnreg = 1
 CONSTANT MaxLen = 3
+CONSTANT MaxGen = 0
+CONSTANT Narrow = FALSE
 CONSTANT Rich = FALSE
 INVARIANT TypeOK
 INVARIANT ScopePartition
 INVARIANT OracleAgrees
 INVARIANT UnfilteredEverywhere
 INVARIANT Independent
+INVARIANT GenerationsAreInert
 INVARIANT Export
 CHECK_DEADLOCK FALSE
